@@ -4,6 +4,8 @@
 #[macro_use]
 pub mod sym;
 pub mod env;
+pub mod mcodec;
+pub mod c01;
 pub mod c18;
 pub mod c03;
 pub mod c05;
@@ -18,6 +20,12 @@ mod replay_entry {
         match name.as_str() {
             "c18::increment_is_strict" => crate::c18::increment_is_strict(),
             "c18::two_increments" => crate::c18::two_increments(),
+            "c01::accepted_is_well_formed" => crate::c01::accepted_is_well_formed(),
+            "c01::tamper_shape_00" => crate::c01::tamper_shape_00(),
+            "c01::tamper_shape_01" => crate::c01::tamper_shape_01(),
+            "c01::tamper_shape_10" => crate::c01::tamper_shape_10(),
+            "c01::tamper_shape_11" => crate::c01::tamper_shape_11(),
+            "c01::body_tamper_rejected" => crate::c01::body_tamper_rejected(),
             "c03::accepted_extends_chain" => crate::c03::accepted_extends_chain(),
             "c03::extending_operation_accepted" => crate::c03::extending_operation_accepted(),
             "c03::accepted_is_above_stored_height" => crate::c03::accepted_is_above_stored_height(),
